@@ -989,7 +989,7 @@ pub fn pinstory(args: &[String]) -> i32 {
     let vk = victim.clone();
     feoxdb::verif::install(Box::new(move |_seq, ev| {
         if ev.kind == "pin" && ev.key == vk.as_slice() && !PINNED.swap(true, Ordering::SeqCst) {
-            std::thread::sleep(std::time::Duration::from_millis(3300));
+            std::thread::sleep(std::time::Duration::from_millis(4800));
         }
     }));
     let s2 = store.clone();
